@@ -83,9 +83,9 @@ class GetterProfile(StoreProfile):
             if run.params.get("overlap_lists"):
                 return {"op": "get", "party": rng.choice(["GP:" + cfg, "GA", "GA"]), "s": s, "attributes": None,
                         "enc": rng.choice(["enc_str", "enc_uri"]), "held": rng.random() < 0.4, "overlap": True}
-            head, _, q = s.partition("?")
+            head, _, qs = s.partition("?")
             head = "/".join(",".join(a for a in seg.split(",") if a != "*") if "," in seg else seg for seg in head.split("/"))
-            s = head + ("?" + q if q else "")
+            s = head + ("?" + qs if qs else "")
         attrs = None
         if rng.random() < 0.5:
             attrs = rng.sample(ATTR_KEYS + ["missing_key", "sid"], rng.randint(1, 3))
@@ -98,6 +98,34 @@ class GetterProfile(StoreProfile):
                 s = "/".join(segs) + ("?" + s.split("?", 1)[1] if "?" in s else "")
                 return {"op": "get", "party": rng.choice(["GP:" + cfg, "GA", "GA"]), "s": s, "attributes": None,
                         "enc": rng.choice(["enc_str", "enc_uri"]), "held": rng.random() < 0.4, "overlap": True}
+        tnb = m.natural_type(base)
+        if tnb and m.is_leaf_type(tnb) and rng.random() < 0.07:
+            # three files next to each other whose extensions, in string order, belong to types A, B, A; then one
+            # ',' list over the three through GetFromAll and GetFromPaths (records in the Finder's order)
+            t = m.by_name[tnb]
+            pairs = []
+            for t2 in m.types:
+                if t2.n == t.n and t2.keys[:-1] == t.keys[:-1] and m.is_leaf_type(t2.name):
+                    pairs += [(v, t2.name) for v in (self.vocab(run).values(t2.name, t2.keys[-1]) or []) if v not in m.alias]
+            pairs.sort()
+            tri = [(a, b2, c) for ia, a in enumerate(pairs) for ib, b2 in enumerate(pairs[ia + 1:], ia + 1)
+                   for c in pairs[ib + 1:] if a[1] == c[1] != b2[1]]
+            if tri:
+                a, b2, c = rng.choice(tri)
+                stem = base.rsplit("/", 1)[0]
+                steps = []
+                for ext, _tn in (a, b2, c):
+                    sfile = stem + "/" + ext
+                    if m.natural_type(sfile) and all(run.store.can_create(cc, sfile) == "ok" for cc in m.configs):
+                        steps.append({"op": "mirror", "sid": sfile, "data": gen_data(rng, nmax=1) if rng.random() < 0.5 else None})
+                exts = [a[0], b2[0], c[0]]
+                rng.shuffle(exts)
+                sq = stem + "/" + ",".join(exts)
+                for party in ("GA", "GP:" + cfg):
+                    steps.append({"op": "get", "party": party, "s": sq, "attributes": None, "enc": "enc_uri", "held": False})
+                run.probes["interleaved_type_lists"] += 1
+                q.extend(steps[1:])
+                return steps[0]
         if len(base.split("/")) >= 2 and rng.random() < 0.08:
             # a shallow '>' search through GetFromAll whose results span several types (levels with and without a
             # configured Getter): 'hamlet/*/>' ...
